@@ -134,6 +134,15 @@ func c16Case(c *core.Ctx, idx int) {
 		depth := 1 + r.IntN(6)
 		m, _ := vg.JSON(depth, 6).(map[string]any)
 		a, _ := vg.JSON(depth, 5).([]any)
+		if j == 7 && idx%3 == 1 && m != nil && len(a) > 0 {
+			// one container object in several places of one value (a DAG, not a cycle): the same map
+			// under two keys and inside the array, two slices of one backing array
+			sub := map[string]any{"n": 1, "s": "shared", "l": []any{1, "x"}}
+			arr := []any{"p", "q", "r", sub}
+			m["dup1"], m["dup2"], m["arr1"], m["arr2"] = sub, sub, arr[:2], arr[:3]
+			a = append(a, sub, arr, arr[1:], sub)
+			rec.Count("values_with_shared_containers", 2)
+		}
 		if j == 11 && idx%5 == 2 {
 			// nested deeper than a machine word has bits, with keys and elements on both sides of the
 			// nested child at every level
